@@ -2,7 +2,10 @@
 // for a key universe built to collide.  Compiled in a scratch dir that holds a copy of
 // the tree's hashmap.c and a "#pragma once" shim for chibicc.h.
 //
-// usage: c17_bfs <ncluster> <nnear> <nfill> <maxstates> <filler_mode>
+// usage: c17_bfs <ncluster> <nnear> <nfill> <maxstates> <filler_mode> [maxlive [home]]
+//   filler_mode 0: fillers follow a stack discipline, 1: any filler may be deleted/re-inserted
+//   maxlive > 0: a put of an absent key is enabled only while fewer than maxlive keys are live (churn over many keys)
+//   home >= 0: the cluster keys are homed at that bucket of a 16-bucket table (15 = wrap-around of the probe sequence)
 // prints:  STATS ...   /  VIOL <kind> <history>   / SAMPLE <history>
 #include "hashmap.c"
 #include <setjmp.h>
@@ -117,6 +120,8 @@ int main(int argc, char **argv) {
   nfill = atoi(argv[3]);
   long maxstates = atol(argv[4]);
   int filler_mode = atoi(argv[5]); // 0: stack discipline, 1: any filler may be deleted/reinserted
+  int maxlive = argc > 6 ? atoi(argv[6]) : 0;
+  int want_home = argc > 7 ? atoi(argv[7]) : -1;
   // learn what a deleted bucket looks like
   { HashMap m = {}; hashmap_put(&m, "t", (void *)1); hashmap_delete(&m, "t");
     for (int i = 0; i < m.capacity; i++) if (m.buckets[i].key) tomb_repr = m.buckets[i].key; }
@@ -124,6 +129,7 @@ int main(int argc, char **argv) {
   int h0 = -1;
   for (int base = 0; base < 16 && h0 < 0; base++) {
     int c = 0;
+    if (want_home >= 0 && base != want_home) continue;
     for (int i = 0; i < 4000 && c < ncluster; i++) { char *k = format("k%d", i); if (home16(k) == base) c++; }
     if (c == ncluster) h0 = base;
   }
@@ -131,7 +137,8 @@ int main(int argc, char **argv) {
   for (int d = 1; d <= nnear; d++)
     for (int i = 0;; i++) { char *k = format("n%d", i); if (home16(k) == (h0 + d) % 16) { keys[nkeys++] = k; break; } }
   nmain = nkeys;
-  for (int i = 0; i < nfill; i++) keys[nkeys++] = format("fill%d", i);
+  // filler j is homed at bucket (j mod 16) of a 16-bucket table, so that fillers cover every bucket
+  for (int i = 0, c = 0; c < nfill; i++) { char *k = format("fill%d", i); if (home16(k) == (h0 + 3 + c) % 16) { keys[nkeys++] = k; c++; } }
   printf("KEYS home=%d", h0); for (int k = 0; k < nkeys; k++) printf(" %s", keys[k]); printf("\n");
 
   capstates = 1 << 16; states = malloc(capstates * sizeof(State));
@@ -155,6 +162,11 @@ int main(int argc, char **argv) {
           } else if (a == 0 && s.dict[k]) continue;
         }
         if (a == 2 && !s.dict[k] && k >= nmain) continue;
+        if (maxlive > 0 && a != 2 && !s.dict[k]) {
+          int live = 0; for (int j = 0; j < nkeys; j++) live += s.dict[j] != 0;
+          if (live >= maxlive) continue;
+        }
+        if (maxlive > 0 && a == 2 && !s.dict[k]) continue;
         int op = k * 3 + a;
         HashMap m; load(&s, &m);
         State t; memset(&t, 0, sizeof t);
